@@ -17,7 +17,9 @@ import (
 	"time"
 
 	"verifmc/checks/conc"
+	"verifmc/checks/lg"
 	"verifmc/explore/sched"
+	"verifmc/explore/seq"
 	"verifmc/rt"
 )
 
@@ -32,6 +34,10 @@ type propDef struct {
 }
 
 var props = map[string]propDef{
+	"C20": {scenarios: conc.C20Scenarios, quick: []int{0, 1, 2}, thorough: []int{0, 1, 2, 3, -1}, quickS: 40, thoroughS: 300, pre: c20Sequential,
+		rule: "sequential part: BFS over all histories of {Write through core i, derive a core (With) from core i, bursts of capacity-1 / capacity / 2*capacity+1 writes through core i} for up to 3 cores; after every event GetLogs() must equal, newest first, the last min(total, capacity) entries written through any core; thorough additionally recompiles the package with BufferSize=4 (overlay, one constant changed) so that wrap-around histories are enumerated completely. Concurrent part: every schedule with at most N preemptions of 2-3 threads writing through the root core and derived cores, optional reader: final buffer holds every entry exactly once in an order consistent with each thread's program order, concurrent reads never duplicate or miss a finished write"},
+	"C16": {scenarios: conc.C16Scenarios, quick: []int{0, 1, 2}, thorough: []int{0, 1, 2, 3, 4}, quickS: 60, thoroughS: 600,
+		rule: "every schedule (scheduling point before every lock acquisition of the trie, the node stores, the change collector, the transaction/block/state caches and the LRUs; the SaveChanges worker goroutine is adopted by its caller's logical thread) of each 2-3 thread scenario with at most N preemptions, N iterated; per schedule brute-force linearizability: the observed results and the final root/content/missing-key count must equal those of some sequential execution (on a fresh real trie) of the same operations in an order consistent with the recorded call/return order; no deadlock (writer-preferring RWMutex modelled); non-trivial = distinct observed outcome"},
 	"C08": {scenarios: conc.C08Scenarios, quick: []int{0, 1, 2}, thorough: []int{0, 1, 2, 3, -1}, quickS: 40, thoroughS: 600,
 		rule: "every schedule (scheduling point before every mutex/RWMutex acquisition of StateCache, BlockCache, TransactionCache and of every golang-lru operation) of each scenario with at most N preemptions, N iterated; per schedule every concurrent hit must equal the block-tree value for its (key, block), after all threads finished every committed block's own write must be found and every lookup stays sound; non-trivial = distinct observed outcome vector"},
 }
@@ -42,6 +48,12 @@ type workerOut struct {
 }
 
 func main() {
+	if len(os.Args) >= 4 && os.Args[1] == "--seq" {
+		st := lg.SeqPart(nil, rt.Tier(os.Args[3]))
+		b, _ := json.Marshal(seqOut{Stats: st, Violations: st.Violations, Known: st.Known})
+		os.Stdout.Write(b)
+		return
+	}
 	if len(os.Args) >= 6 && os.Args[1] == "--worker" {
 		worker(os.Args[2], os.Args[3], os.Args[4], os.Args[5])
 		return
@@ -131,6 +143,56 @@ func main() {
 	rep.Assumption("context switches only immediately before lock acquisitions (and Touch points): sufficient when all shared accesses are inside critical sections; unsynchronised memory is left to the separate free-running -race pass (auxiliary)")
 	rep.Assumption("sync/atomic counters are not scheduling points")
 	os.Exit(rep.Finish())
+}
+
+// c20Sequential runs the sequential exploration in-process and, if present, the same exploration
+// in the small-buffer build (mcsched.buf4).
+func c20Sequential(rep *rt.Report, tier rt.Tier) {
+	absorbSeq(rep, lg.SeqPart(rep, tier))
+	small := os.Args[0] + ".buf4"
+	if _, err := os.Stat(small); err == nil {
+		out, err := exec.Command(small, "--seq", "C20", string(tier)).Output()
+		if err != nil {
+			rt.HarnessError("small-buffer build: %v", err)
+		}
+		var st seqOut
+		if err := json.Unmarshal(out, &st); err != nil {
+			rt.HarnessError("small-buffer build: bad output: %v", err)
+		}
+		st.Stats.Violations, st.Stats.Known = st.Violations, st.Known
+		absorbSeq(rep, st.Stats)
+	} else {
+		rep.Set("small_buffer_variant", "not built")
+	}
+}
+
+type seqOut struct {
+	Stats      *seq.Stats
+	Violations []seq.Fail
+	Known      map[string]*seq.KnownStat
+}
+
+func absorbSeq(rep *rt.Report, st *seq.Stats) {
+	rep.Add("states", st.States)
+	rep.Add("transitions", st.Transitions)
+	rep.Add("traces_validated_against_impl", st.Transitions)
+	rep.Add("evaluations", st.Transitions)
+	rep.Add("sequential_states", st.States)
+	rep.Sub[st.Name] = st
+	for _, s := range st.Samples {
+		rep.Sample(map[string]any{"run": st.Name, "history": s})
+	}
+	if !st.Exhaustive {
+		rep.NotExhaustive(st.Name + ": " + st.Cap)
+	}
+	for id, k := range st.Known {
+		for i := 0; i < k.Count; i++ {
+			rep.KnownHit(id, fmt.Sprint(k.Witness), k.Msg)
+		}
+	}
+	for _, v := range st.Violations {
+		rep.Violate(fmt.Sprintf("[%s] %v => %s", st.Name, v.Hist, v.Msg), map[string]any{"run": st.Name, "history": v.Hist, "ops": v.Raw})
+	}
 }
 
 func maxInt(a, b int) int {
